@@ -2,7 +2,8 @@
 
 impl: sequences of insert_style (every family, named / unnamed, automatic / default / common),
 set_table_displayed, add_page_break_style, delete_styles, merge_styles_from on the four templates
-and on samples.  observed (lxml XPath on the serialised parts): the (part, container) of the
+and on samples; the merged documents are templates, lpod_styles.odt and documents prepared by odfdo itself (templates that
+received runs of unnamed automatic styles, hence styles named odfdo_auto_N); histories unnamed / merge / unnamed.  observed (lxml XPath on the serialised parts): the (part, container) of the
 inserted style, the number of styles with its family and name there, Document.get_style on the
 returned name (also after save + reload), freshness of generated names, the source of a merge.
 model: OdfModel/Styles.lean (containers as lists, insertion, search order, automatic names)."""
@@ -157,7 +158,10 @@ def run(chk: core.Check) -> None:
     rng = chk.rng
     chk.rule = (
         "sequences of 1..7 operations over {insert_style for 17 families x {common, automatic named, automatic unnamed, default} with colliding names, "
-        "add_page_break_style, set_table_displayed, delete_styles, merge_styles_from (templates and lpod_styles.odt)} on the four templates and on samples; after each "
+        "add_page_break_style, set_table_displayed, delete_styles, merge_styles_from (templates, lpod_styles.odt, and 'prepared' documents = a template into which "
+        "1..5 unnamed automatic styles of 1..4 families and sometimes a named odfdo_auto_N were inserted first, so that the merged document holds generated names)} "
+        "on the four templates and on samples, plus histories of the shape [0..2 random insertions] / unnamed automatic inserts of 1..3 families / merge of a prepared "
+        "document holding the same families / unnamed automatic inserts of the same families again; after each "
         "insertion the six style containers are read back by XPath; every 3rd history is saved and reloaded. non-trivial = an insertion whose name already exists "
         "in the family, or an unnamed one; distinct by (source, history)"
     )
@@ -247,19 +251,108 @@ def run(chk: core.Check) -> None:
             except Exception as e:  # noqa: BLE001
                 chk.fail({**case, "exception": repr(e), "clause": "snapshot"}, f"reading the styles raised {type(e).__name__}")
                 break
+    # unnamed / merge / unnamed: generated names must stay fresh when styles named odfdo_auto_N arrive by a merge in between
+    for h in range(chk.n(36, 700)):
+        kind = rng.choice(["text", "spreadsheet", "presentation", "drawing", "text", "sample"])
+        if kind == "sample":
+            src = rng.choice([p for p in pkg.sample_files() if p.suffix in (".odt", ".ods", ".odp")])
+            doc = Document(src)
+            name = src.name
+        else:
+            doc = Document(kind)
+            name = f"template:{kind}"
+        chk.count("source", (name if name.startswith("template") else "sample") + " (unnamed/merge/unnamed)")
+        hist = []
+        try:
+            snap = snapshot(doc)
+            ok = True
+            for _ in range(rng.randrange(0, 3)):
+                op = gen_insert(rng, kind, snap)
+                hist.append(list(op))
+                if not one_insert(chk, rng, doc, op, snap, {"source": name, "history": list(hist)}, reqs):
+                    ok = False
+                    break
+                snap = snapshot(doc)
+            if ok:
+                sandwich(chk, rng, doc, name, hist, snap, reqs)
+        except Exception as e:  # noqa: BLE001
+            chk.fail({"source": name, "history": list(hist), "exception": repr(e), "clause": "snapshot"}, f"reading the styles back during the history raised {type(e).__name__}")
     answers = core.run_driver([q for q, _, _ in reqs])
     for (q, exp, case), ans in zip(reqs, answers):
         if exp != ans:
             chk.disagree({**case, "line": q[:400]}, f"impl {exp[:300]!r} != model {ans[:300]!r}")
 
 
-def merge_step(chk, rng, doc, name, hist) -> bool:
+def gen_prepared(rng, fams=None) -> list:
+    """description of a document prepared by odfdo itself: a template + insertions of automatic styles, most of them unnamed
+    (so the document holds styles named odfdo_auto_1 .. odfdo_auto_N), sometimes one named odfdo_auto_N (a gap in the numbering)"""
+    fams = list(fams) if fams else rng.sample(STD, rng.randrange(1, 4))
+    if rng.random() < 0.3:
+        fams.append(rng.choice(STD))
+    ops = []
+    for fam in fams:
+        if rng.random() < 0.25:
+            ops.append(["insert", fam, "automatic", f"odfdo_auto_{rng.randrange(2, 13)}", rng.randrange(100)])
+        for _ in range(rng.randrange(1, 6)):
+            ops.append(["insert", fam, "automatic-unnamed", None, 100 + rng.randrange(100)])
+    return ["prepared", rng.choice(["text", "spreadsheet", "presentation", "drawing"]), ops]
+
+
+def build_prepared(spec):
     from odfdo import Document
 
-    which = rng.choice(["text", "spreadsheet", "presentation", "lpod"])
-    hist.append(["merge", which])
+    _, kind, ops = spec
+    other = Document(kind)
+    for op in ops:
+        other.insert_style(make_style(tuple(op)), automatic=True)
+    return other
+
+
+def sandwich(chk, rng, doc, name, hist, snap, reqs) -> bool:
+    """unnamed automatic inserts of some families / merge of a prepared document holding these families / unnamed inserts again"""
+    fams = rng.sample(STD, rng.randrange(1, 4))
+
+    def unnamed(fam, snap):
+        for _ in range(rng.randrange(1, 3)):
+            op = ("insert", fam, "automatic-unnamed", None, rng.randrange(100))
+            hist.append(list(op))
+            if not one_insert(chk, rng, doc, op, snap, {"source": name, "history": list(hist)}, reqs):
+                return None
+            snap = snapshot(doc)
+        return snap
+
+    for fam in fams:
+        snap = unnamed(fam, snap)
+        if snap is None:
+            return False
+    if not merge_step(chk, rng, doc, name, hist, spec=gen_prepared(rng, fams)):
+        return False
+    snap = snapshot(doc)
+    rng.shuffle(fams)
+    for fam in fams:
+        snap = unnamed(fam, snap)
+        if snap is None:
+            return False
+    chk.count("merge", "unnamed / merge / unnamed completed")
+    return True
+
+
+def merge_step(chk, rng, doc, name, hist, spec=None) -> bool:
+    from odfdo import Document
+
+    which = "prepared" if spec is not None else rng.choice(["text", "spreadsheet", "presentation", "lpod", "prepared"])
+    if which == "prepared":
+        spec = spec or gen_prepared(rng)
+        hist.append(["merge", *spec])
+    else:
+        hist.append(["merge", which])
     case = {"source": name, "history": list(hist)}
-    other = Document(which) if which != "lpod" else Document(pkg.TEMPLATE_DIR / "lpod_styles.odt")
+    chk.count("merge", f"from {which}")
+    try:
+        other = build_prepared(spec) if which == "prepared" else Document(which) if which != "lpod" else Document(pkg.TEMPLATE_DIR / "lpod_styles.odt")
+    except Exception as e:  # noqa: BLE001
+        chk.fail({**case, "exception": repr(e), "clause": "raises"}, f"preparing the document to merge (insert_style) raised {type(e).__name__}")
+        return False
     try:
         o0 = (other.get_part("content").serialize(), other.get_part("styles").serialize())
         before = snapshot(doc)
